@@ -136,6 +136,10 @@ def infer_layouts():
     return out, uncovered
 
 
+# module -> {payload length: (start, stop) of an embedded number that validate() checks separately}
+NESTED = {'stdnum.pl.regon': {13: (0, 9)}}
+
+
 def script(unit):
     m, lay = unit['module'], unit['lay']
     g, name = lay['gen'], lay['layout']
@@ -163,12 +167,19 @@ def script(unit):
         else:
             return [], [], None
         calls = [Call(m, g, [X()]), Call(m, 'validate', [asm], requires=[0], label='validate(assembled)')]
+        # numbers that embed another checked number: a payload is only well-formed if the embedded number is valid
+        # (a 14-digit REGON starts with a complete 9-digit REGON that has its own check digit)
+        nested = NESTED.get(m, {}).get(unit['L'])
+        if nested:
+            calls.append(Call(m, 'validate', [('xslice', nested[0], nested[1])], label='validate(embedded number)'))
 
         nck = 2 if name.endswith('2') else 1
 
         def ob(outs):
             if outs[0].kind != 'ret' or len(E.force(outs[0].value)) != nck:
                 return None     # e.g. nz.ird / ch.uid return '10' for payloads that have no check digit at all
+            if nested and outs[2].kind != 'ret':
+                return None
             return not (outs[1].kind == 'verr' and outs[1].exc == 'InvalidChecksum')
         return calls, [('%s:completed-payload-rejected-with-checksum-error' % g, ob)], (lambda outs: outs[0].kind == 'ret')
     raise ValueError(unit['kind'])
